@@ -1046,3 +1046,268 @@ Proof.
   specialize (Hinv b Hb). rewrite Hop in Hh. destruct (Hinv Hh) as (f & ib & H1 & H2 & H3 & H4 & H5 & H6).
   exists f, ib. rewrite Hr, Hhd. repeat split; auto.
 Qed.
+
+(* ================================================================ where an output entry comes from *)
+
+Lemma tids_in_inv fs t : In t (tids_in fs) ->
+  exists f ib e, In f fs /\ In ib (fo_batches f) /\ In e (ib_entries (ibo_batch ib))
+                 /\ t = tag (fo_route f) (ib_header (ibo_batch ib)) (batch_in_opts (fo_opts f) ib) e.
+Proof.
+  unfold tids_in. intros H. apply in_flat_map in H as (f & Hf & H).
+  unfold tids_ifile in H. apply in_flat_map in H as (ib & Hib & H).
+  unfold tids_ibatch in H. apply in_map_iff in H as (e & <- & He). now exists f, ib, e.
+Qed.
+
+Lemma tids_in_intro fs f ib e : In f fs -> In ib (fo_batches f) -> In e (ib_entries (ibo_batch ib)) ->
+  In (tag (fo_route f) (ib_header (ibo_batch ib)) (batch_in_opts (fo_opts f) ib) e) (tids_in fs).
+Proof.
+  intros Hf Hib He. unfold tids_in. apply in_flat_map. exists f. split; [exact Hf|].
+  unfold tids_ifile. apply in_flat_map. exists ib. split; [exact Hib|]. unfold tids_ibatch. now apply in_map.
+Qed.
+
+Lemma tids_out_intro gs g rb e : In g gs -> In rb (rfo_batches g) -> In e (rbo_entries rb) ->
+  In (tag (rfo_route g) (rbo_header rb) (rbo_opts rb) e) (tids_out gs).
+Proof.
+  intros Hg Hb He. unfold tids_out. apply in_flat_map. exists g. split; [exact Hg|].
+  unfold tids_rfile, tids_rbatches. apply in_flat_map. exists rb. split; [exact Hb|].
+  unfold tids_rbatch. now apply in_map.
+Qed.
+
+Lemma tids_out_inv gs t : In t (tids_out gs) ->
+  exists g rb e, In g gs /\ In rb (rfo_batches g) /\ In e (rbo_entries rb)
+                 /\ t = tag (rfo_route g) (rbo_header rb) (rbo_opts rb) e.
+Proof.
+  unfold tids_out. intros H. apply in_flat_map in H as (g & Hg & H).
+  unfold tids_rfile, tids_rbatches in H. apply in_flat_map in H as (rb & Hrb & H).
+  unfold tids_rbatch in H. apply in_map_iff in H as (e & <- & He). now exists g, rb, e.
+Qed.
+
+(* no mixing, with options: an entry of an output batch is an entry of an input batch with the
+   same routing pair and header key whose options the output batch includes *)
+Lemma merge_o_entry_source fs c g rb e :
+  In g (merge_files_o fs c) -> In rb (rfo_batches g) -> In e (rbo_entries rb) ->
+  exists f ib, In f fs /\ In ib (fo_batches f) /\ In e (ib_entries (ibo_batch ib))
+               /\ fo_route f = rfo_route g /\ hkey (ib_header (ibo_batch ib)) = hkey (rbo_header rb)
+               /\ osub (batch_in_opts (fo_opts f) ib) (rbo_opts rb).
+Proof.
+  intros Hg Hb He. pose proof (tids_out_intro _ g rb e Hg Hb He) as Hin.
+  destruct (matched_in_r _ _ _ _ (merge_o_opts_union fs c) Hin) as (t & Ht & [Hid Hsub]).
+  apply tids_in_inv in Ht as (f & ib & e' & Hf & Hib & He' & ->).
+  cbn [fst snd tag] in Hid, Hsub. unfold mkid in Hid.
+  apply pair_equal_spec in Hid as [Hid ->]. apply pair_equal_spec in Hid as [Hr Hk].
+  exists f, ib. repeat split; assumption.
+Qed.
+
+(* and conversely every entry of an input batch sits in an output batch of the same routing
+   pair and header key that includes the options of the input batch *)
+Lemma merge_o_entry_target fs c f ib e :
+  In f fs -> In ib (fo_batches f) -> In e (ib_entries (ibo_batch ib)) ->
+  exists g rb, In g (merge_files_o fs c) /\ In rb (rfo_batches g) /\ In e (rbo_entries rb)
+               /\ fo_route f = rfo_route g /\ hkey (ib_header (ibo_batch ib)) = hkey (rbo_header rb)
+               /\ osub (batch_in_opts (fo_opts f) ib) (rbo_opts rb).
+Proof.
+  intros Hf Hib He. pose proof (tids_in_intro fs f ib e Hf Hib He) as Hin.
+  destruct (matched_in_l _ _ _ _ (merge_o_opts_union fs c) Hin) as (t & Ht & [Hid Hsub]).
+  apply tids_out_inv in Ht as (g & rb & e' & Hg & Hrb & He' & ->).
+  cbn [fst snd tag] in Hid, Hsub. unfold mkid in Hid.
+  apply pair_equal_spec in Hid as [Hid <-]. apply pair_equal_spec in Hid as [Hr Hk].
+  exists g, rb. repeat split; assumption.
+Qed.
+
+Lemma hkey_odfi a b : hkey a = hkey b -> h_odfi a = h_odfi b.
+Proof. unfold hkey. intros H. injection H as _ _ _ _ _ _ H7. exact H7. Qed.
+
+(* a per-entry rule that looks at the header through the ODFI only and is monotone in the
+   options holds for every entry of every output batch when it holds for the inputs *)
+Lemma merge_o_entries_transfer (V : header -> vopts -> entry -> bool) fs c g rb :
+  (forall h h' o o' e, h_odfi h = h_odfi h' -> osub o o' -> V h o e = true -> V h' o' e = true) ->
+  (forall f ib e, In f fs -> In ib (fo_batches f) -> In e (ib_entries (ibo_batch ib)) ->
+     V (ib_header (ibo_batch ib)) (batch_in_opts (fo_opts f) ib) e = true) ->
+  In g (merge_files_o fs c) -> In rb (rfo_batches g) ->
+  forallb (V (rbo_header rb) (rbo_opts rb)) (rbo_entries rb) = true.
+Proof.
+  intros Hmono Hin Hg Hrb. apply forallb_forall. intros e He.
+  destruct (merge_o_entry_source fs c g rb e Hg Hrb He) as (f & ib & Hf & Hib & He' & _ & Hk & Hsub).
+  eapply Hmono; [apply hkey_odfi, Hk|exact Hsub|]. now apply Hin.
+Qed.
+
+(* ================================================================ trace numbers under Batch.Create *)
+
+(* Batch.build leaves the trace number of e alone *)
+Definition entry_stays (h : header) (o : vopts) (e : entry) : bool :=
+  match trace_odfi e, header_odfi h with
+  | Some p, Some q => (p =? q) || keeps_traces o
+  | _, _ => false
+  end.
+
+Lemma build_entries_stays h o es : forall seq,
+  forallb (entry_stays h o) es = true -> build_entries h o seq es = Some es.
+Proof.
+  induction es as [|e es IH]; intros seq H; cbn [build_entries]; [reflexivity|].
+  cbn [forallb] in H. apply andb_prop in H as [He Hes]. unfold entry_stays in He.
+  destruct (trace_odfi e) as [p|]; [|discriminate]. destruct (header_odfi h) as [q|]; [|discriminate].
+  rewrite (IH (seq + 1) Hes).
+  assert (E : negb (p =? q) && negb (keeps_traces o) = false).
+  { apply orb_true_iff in He as [He|He]; rewrite He; [reflexivity|apply andb_false_r]. }
+  now rewrite E.
+Qed.
+
+Lemma entry_stays_mono h h' o o' e :
+  h_odfi h = h_odfi h' -> osub o o' -> entry_stays h o e = true -> entry_stays h' o' e = true.
+Proof.
+  intros E Hs. unfold entry_stays, header_odfi. rewrite E.
+  destruct (trace_odfi e) as [p|]; [|auto].
+  destruct (atoi_opt (firstn 8 (stringField (h_odfi h') 8))) as [q|]; [|auto].
+  intros H. apply orb_true_iff in H as [H|H]; [now rewrite H|].
+  rewrite (keeps_traces_mono _ _ Hs H). apply orb_true_r.
+Qed.
+
+Definition inputs_stay (fs : list ifileo) : Prop :=
+  forall f ib e, In f fs -> In ib (fo_batches f) -> In e (ib_entries (ibo_batch ib)) ->
+    entry_stays (ib_header (ibo_batch ib)) (batch_in_opts (fo_opts f) ib) e = true.
+
+(* entry identity conservation including the trace number: when every input entry either
+   starts with the ODFI of its batch header or was validated under BypassOriginValidation /
+   CustomTraceNumbers (on its file or on its batch), Batch.build changes no trace number *)
+Lemma merge_o_traces_preserved fs c g rb :
+  inputs_stay fs -> In g (merge_files_o fs c) -> In rb (rfo_batches g) ->
+  build_entries (rbo_header rb) (rbo_opts rb) 1 (rbo_entries rb) = Some (rbo_entries rb).
+Proof.
+  intros Hin Hg Hrb. apply build_entries_stays.
+  apply (merge_o_entries_transfer entry_stays fs c g rb); auto. intros. eapply entry_stays_mono; eauto.
+Qed.
+
+Definition is_gt (c : comparison) : bool := match c with Gt => true | _ => false end.
+
+(* the trace-number rules of Batch.Create, per entry, under the options o *)
+Definition entry_trace_valid (h : header) (o : vopts) (e : entry) : bool :=
+  entry_stays h o e
+  && (custom o || (is_gt (bcmp (e_trace e) [48%N]) && (bypass o || trace_is_odfi h e))).
+
+Lemma entry_trace_valid_mono h h' o o' e :
+  h_odfi h = h_odfi h' -> osub o o' -> entry_trace_valid h o e = true -> entry_trace_valid h' o' e = true.
+Proof.
+  intros E Hs H. unfold entry_trace_valid in *. apply andb_prop in H as [H1 H2].
+  rewrite (entry_stays_mono _ _ _ _ _ E Hs H1). cbn [andb].
+  destruct (custom o') eqn:Hc'; [reflexivity|]. cbn [orb].
+  assert (Hc : custom o = false).
+  { destruct (custom o) eqn:Hc; [|reflexivity]. unfold custom in *. apply (osub_oflag _ _ _ Hs) in Hc. congruence. }
+  rewrite Hc in H2. cbn [orb] in H2. apply andb_prop in H2 as [H2 H3]. rewrite H2. cbn [andb].
+  apply orb_true_iff in H3 as [H3|H3].
+  - unfold bypass in *. now rewrite (osub_oflag _ _ _ Hs H3).
+  - unfold trace_is_odfi in *. rewrite <- E, H3. apply orb_true_r.
+Qed.
+
+Lemma seq_ascending_tasc es : forall last,
+  tasc es -> Forall (fun e => bcmp (e_trace e) last = Gt) es -> seq_ascending last es = true.
+Proof.
+  induction es as [|e r IH]; intros last Ht Hall; cbn [seq_ascending]; [reflexivity|].
+  inversion Hall as [|? ? He Hr]; subst. rewrite He. apply IH; [apply Ht|].
+  pose proof (tasc_all_lt e r Ht) as Hlt. eapply Forall_impl; [|exact Hlt]. cbn.
+  intros y Hy. now apply bcmp_lt_gt.
+Qed.
+
+(* Batch.Create succeeds as far as trace numbers go and returns the entries unchanged *)
+Lemma batch_create_valid h o es :
+  tasc es -> forallb (entry_trace_valid h o) es = true -> batch_create h o es = Some es.
+Proof.
+  intros Ht Hv. rewrite forallb_forall in Hv. unfold batch_create.
+  rewrite build_entries_stays.
+  2:{ apply forallb_forall. intros e He. specialize (Hv e He). unfold entry_trace_valid in Hv.
+      now apply andb_prop in Hv as [Hv _]. }
+  assert (Hver : verify_traces h o es = true).
+  { unfold verify_traces. destruct (custom o) eqn:Hc; [reflexivity|]. cbn [orb].
+    assert (Hall : forall e, In e es -> bcmp (e_trace e) [48%N] = Gt /\ (bypass o || trace_is_odfi h e) = true).
+    { intros e He. specialize (Hv e He). unfold entry_trace_valid in Hv. rewrite Hc in Hv. cbn [orb] in Hv.
+      apply andb_prop in Hv as [_ Hv]. apply andb_prop in Hv as [H1 H2]. split; [|exact H2].
+      destruct (bcmp (e_trace e) [48%N]); try discriminate. reflexivity. }
+    rewrite seq_ascending_tasc; [|exact Ht|apply Forall_forall; intros e He; now apply Hall]. cbn [andb].
+    destruct (bypass o) eqn:Hb; [reflexivity|]. cbn [orb]. apply forallb_forall. intros e He.
+    destruct (Hall e He) as [_ H]. exact H. }
+  now rewrite Hver.
+Qed.
+
+Definition inputs_trace_valid (fs : list ifileo) : Prop :=
+  forall f ib e, In f fs -> In ib (fo_batches f) -> In e (ib_entries (ibo_batch ib)) ->
+    entry_trace_valid (ib_header (ibo_batch ib)) (batch_in_opts (fo_opts f) ib) e = true.
+
+Lemma merge_o_tasc fs c g rb : In g (merge_files_o fs c) -> In rb (rfo_batches g) -> tasc (rbo_entries rb).
+Proof.
+  intros Hg Hrb. change (rbo_entries rb) with (rb_entries (erase_rb rb)).
+  apply (merge_traces (map erase_ifile fs) c (erase_rf g)).
+  - rewrite <- merge_o_erase. now apply in_map.
+  - cbn [erase_rf rf_batches]. now apply in_map.
+Qed.
+
+(* inputs whose trace numbers are valid under the options they carry: Batch.Create on every
+   output batch passes the trace-number rules and changes no entry *)
+Lemma merge_o_created fs c g rb :
+  inputs_trace_valid fs -> In g (merge_files_o fs c) -> In rb (rfo_batches g) ->
+  rbo_created rb = Some (rbo_entries rb).
+Proof.
+  intros Hin Hg Hrb. unfold rbo_created. apply batch_create_valid; [eapply merge_o_tasc; eauto|].
+  apply (merge_o_entries_transfer entry_trace_valid fs c g rb); auto.
+  intros. eapply entry_trace_valid_mono; eauto.
+Qed.
+
+Lemma merge_o_created_ok fs c : inputs_trace_valid fs -> merge_created_ok (merge_files_o fs c) = true.
+Proof.
+  intros Hin. unfold merge_created_ok. apply forallb_forall. intros g Hg. apply forallb_forall. intros rb Hrb.
+  now rewrite (merge_o_created fs c g rb Hin Hg Hrb).
+Qed.
+
+(* the special case asked for: CustomTraceNumbers stored on every input file *)
+Definition inputs_numeric (fs : list ifileo) : Prop :=
+  forall f ib e, In f fs -> In ib (fo_batches f) -> In e (ib_entries (ibo_batch ib)) ->
+    trace_odfi e <> None /\ header_odfi (ib_header (ibo_batch ib)) <> None.
+
+Lemma custom_inputs_valid fs :
+  (forall f, In f fs -> custom (fo_opts f) = true) -> inputs_numeric fs -> inputs_trace_valid fs.
+Proof.
+  intros Hc Hn f ib e Hf Hib He. destruct (Hn f ib e Hf Hib He) as [H1 H2].
+  assert (Hcu : custom (batch_in_opts (fo_opts f) ib) = true).
+  { unfold custom, batch_in_opts. rewrite oflag_omerge. unfold custom in Hc. now rewrite (Hc f Hf). }
+  unfold entry_trace_valid, entry_stays, keeps_traces. rewrite Hcu.
+  destruct (trace_odfi e); [|congruence]. destruct (header_odfi (ib_header (ibo_batch ib))); [|congruence].
+  rewrite !orb_true_r. reflexivity.
+Qed.
+
+Lemma merge_o_traces_custom fs c g rb :
+  (forall f, In f fs -> custom (fo_opts f) = true) -> inputs_numeric fs ->
+  In g (merge_files_o fs c) -> In rb (rfo_batches g) -> rbo_created rb = Some (rbo_entries rb).
+Proof. intros Hc Hn. apply merge_o_created. now apply custom_inputs_valid. Qed.
+
+(* ---------------------------------------------------------------- conservation of the created entries *)
+
+Definition created_entries (rb : rbatcho) : list entry :=
+  match rbo_created rb with Some es => es | None => [] end.
+Definition ids_created (gs : list rfileo) : list ident :=
+  flat_map (fun g => flat_map (fun rb => map (mkid (rfo_route g) (rbo_header rb)) (created_entries rb)) (rfo_batches g)) gs.
+
+Lemma ids_out_erase gs : ids_out (map erase_rf gs) = flat_map (fun g => flat_map (fun rb => map (mkid (rfo_route g) (rbo_header rb)) (rbo_entries rb)) (rfo_batches g)) gs.
+Proof.
+  unfold ids_out. rewrite flat_map_concat_map, map_map, <- flat_map_concat_map.
+  apply flat_map_ext. intros g. unfold ids_rfile, ids_rbatches. cbn [erase_rf rf_batches].
+  rewrite flat_map_concat_map, map_map, <- flat_map_concat_map. reflexivity.
+Qed.
+
+Lemma flat_map_ext_in {A B} (f g : A -> list B) l : (forall x, In x l -> f x = g x) -> flat_map f l = flat_map g l.
+Proof.
+  induction l as [|x l IH]; intros H; cbn [flat_map]; [reflexivity|].
+  rewrite H; [|now left]. rewrite IH; [reflexivity|]. intros y Hy. apply H. now right.
+Qed.
+
+Lemma merge_o_created_conservation fs c :
+  inputs_trace_valid fs -> Permutation (ids_created (merge_files_o fs c)) (ids_in (map erase_ifile fs)).
+Proof.
+  intros Hin. assert (E : ids_created (merge_files_o fs c) = ids_out (map erase_rf (merge_files_o fs c))).
+  { rewrite ids_out_erase. unfold ids_created. apply flat_map_ext_in. intros g Hg.
+    apply flat_map_ext_in. intros rb Hrb. unfold created_entries.
+    now rewrite (merge_o_created fs c g rb Hin Hg Hrb). }
+  rewrite E, merge_o_erase. apply merge_conservation.
+Qed.
+
+(* conservation restated for inputs with options (identities as added to the output batches) *)
+Lemma merge_o_conservation fs c :
+  Permutation (ids_out (map erase_rf (merge_files_o fs c))) (ids_in (map erase_ifile fs)).
+Proof. rewrite merge_o_erase. apply merge_conservation. Qed.
